@@ -65,8 +65,9 @@ def analyse(pop, modes):
                 txt = r.get("stdout", "") + r.get("stderr", "")
                 ex = r.get("export") or {}
                 autos = ex.get("automata", [])
-                low = txt.lower()
-                if autos and autos[-1]["verdict"] == "conflict" and "conflict" not in low and "ambigu" not in low:
+                # a conflict verdict comes with a diagnostic (its wording varies: "Conflict detected",
+                # "Ambiguous grammar", "Multiple productions for the same reduction", ...)
+                if autos and autos[-1]["verdict"] == "conflict" and len(txt.strip()) < 20:
                     effects.append((gid, mode, "conflict_without_diagnostic"))
             elif r["status"] == "ok" and not os.path.exists(rs):
                 effects.append((gid, mode, "ok_without_output"))
